@@ -24,6 +24,7 @@ class Leg:
     shard = 250
     escalation_cap = 4         # at most this factor on quick_n when the modelled sources changed (lib/fingerprint.py)
     extended_factor = 10       # extended failing-input search: this many times quick_n
+    time_limit = None          # wall-clock limit of one observe() in seconds (None: the engine's default, 120 s)
 
     def generate(self, rng, n):
         raise NotImplementedError
@@ -86,7 +87,8 @@ def _observe(leg, case):
     import threading
     if threading.current_thread() is not threading.main_thread():
         return leg.observe(case)
-    limit = _WD["limit"] if not _WD["fired"] else min(_WD["limit"], 10.0)
+    own = getattr(leg, "time_limit", None)          # legs whose cases are slow by nature (deep-graph pickling under a profiler)
+    limit = own if own else (_WD["limit"] if not _WD["fired"] else min(_WD["limit"], 10.0))
 
     def fire(*_a):
         raise _Watchdog()
